@@ -42,6 +42,7 @@ func NewUTF8Reader(r io.Reader) *UTF8Reader {
 // Reset resets utf8 reader to read from r.
 func (u *UTF8Reader) Reset(r io.Reader) {
 	u.Source = r
+	u.accepted = 0
 	u.state = 0
 	u.codep = 0
 }
